@@ -50,6 +50,7 @@ class Recorder:
         self.reduce_starts = []
         self.simp_origin = {}
         self.cur_task = {}
+        self.snapshots = []
         self.fallback_active = False
         self.fallback_seq0 = None
         self.passes = {}
@@ -153,6 +154,7 @@ class Recorder:
             d['done_seq'] = self.seq()
             d['t_done'] = CTX.S.clock
             d['returncode'] = proc.returncode
+            d['captured'] = (proc._cap_out, proc._cap_err)
 
     def on_kill(self, proc):
         d = proc.inv
@@ -226,6 +228,27 @@ class Recorder:
         if self.rewrite_in_progress:
             self.n_points_in_rewrite += 1
             self.points_in_rewrite.append(nyield)
+            if self.spec.get('snapshots') and len(
+                    self.snapshots) < self.spec['snapshots']:
+                # what a SIGKILL here leaves on disk next to the output
+                # file; only states with a non-empty stray file are worth a
+                # restart (an empty or absent one cannot leak anything)
+                snap = {}
+                d = os.path.dirname(CTX.outpath)
+                base = os.path.basename(CTX.outpath)
+                stray = False
+                for fn in os.listdir(d):
+                    if base in fn:
+                        try:
+                            with open(os.path.join(d, fn), 'rb') as f:
+                                snap[fn] = f.read()
+                            if fn != base and snap[fn]:
+                                stray = True
+                        except OSError:
+                            pass
+                if stray and (not self.snapshots
+                              or self.snapshots[-1][1] != snap):
+                    self.snapshots.append((nyield, snap))
         if self.observe_output and (self.rewrite_in_progress
                                     or nyield % 16 == 0):
             self.observe(info[0] if info else '')
